@@ -284,9 +284,7 @@ def pic_line(sys, p, r, s, I0, R0):
     return ' '.join(toks)
 
 
-def pic_check(EoN, rng, n_per_entry, report):
-    """the *_pure_IC entry points with initial sets (any container, any order) on both problems against node_V0 o (x0_sets, y0_set)"""
-    stats = {'pure_ic_cases': 0, 'pure_ic_agree': 0}
+def pic_cases(rng, n_per_entry):
     cases = []
     for sys, entry in enumerate(ENTRY):
         for k in range(n_per_entry):
@@ -297,18 +295,23 @@ def pic_check(EoN, rng, n_per_entry, report):
             I0 = nodes[:ni]
             R0 = nodes[ni:ni + rng.randint(0, p['n'] - ni)] if sys in (1, 3) and rng.random() < .6 else []
             cases.append((sys, entry, p, r, I0, R0))
+    return cases
+
+
+def pic_check(EoN, cases, report):
+    """the *_pure_IC entry points with initial sets (any container, any order) on both problems against node_V0 o (x0_sets, y0_set)"""
+    stats = {'pure_ic_cases': 0, 'pure_ic_agree': 0}
     setups = [setup(p, r) for _, _, p, r, _, _ in cases]
     outs = C.run_model([pic_line(sys, p, r, s, I0, R0) for (sys, _, p, r, I0, R0), s in zip(cases, setups)], COMP)
     for (sys, entry, p, r, I0, R0), s, o in zip(cases, setups, outs):
         n = s['n']; name = entry + '_pure_IC'
-        rp = {'kind': 'pure-ic', 'entry': name, 'point': {k: p[k] for k in ('n', 'edges', 'labels', 'nodelist')}, 'relabel': r, 'I0': I0, 'R0': R0}
+        rp = {'kind': 'pure-ic', 'sys': sys, 'entry': entry, 'point': p, 'relabel': r, 'I0': I0, 'R0': R0}
         try:
             V0, PV0, V0b = parse_blocks(o)
         except Exception as e:
             report('C14/c14x/driver', 'extracted driver failed: %s' % str(e)[:200], rp, True); continue
         if PV0 != V0b:
             report('C14/c14x/theorem-pure-ic', 'extracted node_V0 from the renamed sets is not the re-ordered node_V0: contradicts C14x_node_pure_IC_equivariant', rp, True); continue
-        mk = [set, list, tuple][len(cases) % 3]
         I1 = [s['lab1'][u] for u in I0]; R1 = [s['lab1'][u] for u in R0]
         I2 = [s['new'][u] for u in reversed(I0)]; R2 = [s['new'][u] for u in reversed(R0)]
         try:
@@ -347,8 +350,7 @@ def ic_line(sys, p, r, s, X0, Y0):
     return ' '.join(toks)
 
 
-def ic_check(EoN, rng, n_per_entry, report):
-    stats = {'ic_cases': 0, 'ic_agree': 0}
+def ic_cases(rng, n_per_entry):
     cases = []
     for sys, entry in enumerate(ENTRY):
         for k in range(n_per_entry):
@@ -361,11 +363,16 @@ def ic_check(EoN, rng, n_per_entry, report):
             else:
                 X0 = [1 - y for y in Y0]
             cases.append((sys, entry, p, r, X0, Y0))
+    return cases
+
+
+def ic_check(EoN, cases, report):
+    stats = {'ic_cases': 0, 'ic_agree': 0}
     setups = [setup(p, r) for _, _, p, r, _, _ in cases]
     outs = C.run_model([ic_line(sys, p, r, s, X0, Y0) for (sys, _, p, r, X0, Y0), s in zip(cases, setups)], COMP)
     for (sys, entry, p, r, X0, Y0), s, o in zip(cases, setups, outs):
         n = s['n']
-        rp = {'kind': 'initial-vector', 'entry': entry, 'point': {k: p[k] for k in ('n', 'edges', 'labels', 'nodelist')}, 'relabel': r,
+        rp = {'kind': 'initial-vector', 'sys': sys, 'entry': entry, 'point': p, 'relabel': r,
               'X0': [str(x) for x in X0], 'Y0': [str(x) for x in Y0]}
         try:
             V0, PV0, V0b = parse_blocks(o)
@@ -433,23 +440,40 @@ def part(run, tier, props):
         found.setdefault(key, (what, rp, no_input))
     n = 40 if tier == 'quick' else 400
     stats, samples = eqv_check(EoN, eqv_cases(rng, n), report)
-    stats.update(ic_check(EoN, rng, 10 if tier == 'quick' else 80, report))
-    stats.update(pic_check(EoN, rng, 10 if tier == 'quick' else 80, report))
+    stats.update(ic_check(EoN, ic_cases(rng, 10 if tier == 'quick' else 80), report))
+    stats.update(pic_check(EoN, pic_cases(rng, 10 if tier == 'quick' else 80), report))
     for key, (what, rp, no_input) in sorted(found.items()):
+        if isinstance(rp, dict) and rp.get('kind') in KINDS:
+            rp = dict(rp, replay_cmd='cd /verif && [EON_REPO=...] /venv/bin/python -m harness.c14x <this file>   (harness/c14.py replay() dispatches only its own kinds)')
         run.violation(key, what, rp, no_input=no_input)
     return {'built': True, 'stats': stats, 'samples': samples, 'rhs2_regeneration': regen_err or 'ok',
             'props': {k: {'ok': v['ok'], 'theorems': v['theorems']} for k, v in xps.items()}}
 
 
+KINDS = ('rhs-equivariance', 'initial-vector', 'pure-ic')
+
+
 def replay(rp):
+    """re-execute one recorded case of this module against C.REPO; 1 if it still fails"""
     EoN = C.import_eon()
     C.build_driver(COMP)
     j = rp['replay']
     bad = []
     rep = lambda key, what, r, no_input: bad.append((key, what))
-    if j.get('kind') == 'rhs-equivariance':
+    k = j.get('kind')
+    if k == 'rhs-equivariance':
         eqv_check(EoN, [(j['point'], j['relabel'])], rep)
+    elif k == 'initial-vector':
+        ic_check(EoN, [(j['sys'], j['entry'], j['point'], j['relabel'], [F(x) for x in j['X0']], [F(x) for x in j['Y0']])], rep)
+    elif k == 'pure-ic':
+        pic_check(EoN, [(j['sys'], j['entry'], j['point'], j['relabel'], j['I0'], j['R0'])], rep)
     else:
-        print('re-run ./check C14'); return 2
-    for k, w in bad: print(k, w)
+        print('not a c14x replay; use ./check replay'); return 2
+    for key, w in bad: print(key, '|', w)
+    print('still fails' if bad else 'passes now')
     return 1 if bad else 0
+
+
+if __name__ == '__main__':
+    import sys, json
+    sys.exit(replay(json.load(open(sys.argv[1]))))
